@@ -24,7 +24,7 @@ PROPS = {
  'C10': dict(level='proof', sections=None, result_ops=['*'], monitors=[], uses_generated=True),
  'C11': dict(level='proof', sections=['vpn/node/10', 'param'], result_ops=['tx:nodeRegister', 'tx:nodeUpdate', 'tx:nodeSubscribe', 'gov'], monitors=['prices']),
  'C12': dict(level='proof', sections=None, result_ops=['export', 'reimport'], monitors=[]),
- 'C13': dict(level='proof', sections=[], result_ops=['query'], monitors=[], uses_generated=True),
+ 'C13': dict(level='proof', sections=[], result_ops=['query'], monitors=[], uses_generated=True, probe=True),
  'C14': dict(level='proof', sections=['swap', 'bank', 'supply'], result_ops=['tx:swap'], monitors=['swapLedger'], uses_generated=True),
  'C15': dict(level='proof', sections=['custommint', 'sdkmint', 'events'], result_ops=['mintprobe', 'begin'], monitors=[]),
  'C16': dict(level='proof', sections=[], result_ops=[], monitors=[], probe=True, uses_generated=True),
